@@ -50,7 +50,8 @@ def kani_counterexample(scratch, ob, logdir):
             # the playback test fails (panics) iff the violation reproduces on the real code
             keep = [l for l in p.stdout.split("\n") if re.search(r"panicked at|^assertion|^test result|^failures:|^    \\S+kani_concrete_playback|^test .*(ok|FAILED)$", l)]
             cex["replay_output_tail"] = "\n".join(keep[-40:])
-            cex["replayed"] = ("test result: FAILED" in p.stdout) and ("panicked at" in p.stdout)
+            # the native run of the real code panics at the harness assertion / inside the function under contract
+            cex["replayed"] = "panicked at" in p.stdout
         except subprocess.TimeoutExpired:
             cex["replay_note"] = "playback timeout"
     return cex
